@@ -187,6 +187,19 @@ func (rngdata *RangeNamespaceData) verifyShares(
 		if len(row) == 0 {
 			return fmt.Errorf("empty shares at row %d", i)
 		}
+		// every row must hold exactly the part of the range that falls into it. The total amount of
+		// shares alone does not pin the positions: a complete first row followed by a shortened last
+		// row (or the other way round) has the right total but is not the requested range.
+		startCol, endCol := 0, odsSize
+		if i == 0 {
+			startCol = from.Col
+		}
+		if i == len(shares)-1 {
+			endCol = to.Col + 1
+		}
+		if len(row) != endCol-startCol {
+			return fmt.Errorf("mismatched amount of shares at row %d: expected %d vs got %d", i, endCol-startCol, len(row))
+		}
 	}
 	if rngdata.FirstIncompleteRowProof != nil && rngdata.FirstIncompleteRowProof.Start() != from.Col {
 		return fmt.Errorf(
